@@ -77,14 +77,21 @@ func DateOff(n int64) string {
 }
 
 // DateOffFmt renders the offset in one of the three HTTP-date formats a recipient must accept
-// (RFC 9110 §5.6.7): 'T' IMF-fixdate, 'R' RFC 850, 'A' asctime.
+// (RFC 9110 §5.6.7): 'T' IMF-fixdate, 'R' RFC 850, 'A' asctime - or, rarely, as a wall-clock
+// reading in another zone ('J' JST, 'P' PST), which is not an HTTP-date at all.
 func DateOffFmt(t *rapid.T, label string, n int64) string {
 	f := "T"
-	switch Weighted(t, label+"-datefmt", 84, 8, 8) {
+	switch Weighted(t, label+"-datefmt", 80, 8, 8, 2, 2) {
 	case 1:
 		f = "R"
 	case 2:
 		f = "A"
+	case 3:
+		// the same instant written in another zone (rfc850 layout): no HTTP-date - those are
+		// in GMT - and above all not that wall-clock reading taken as GMT
+		f = "J"
+	case 4:
+		f = "P"
 	}
 	if n >= 0 {
 		return "$" + f + "+" + itoa(n)
